@@ -14,6 +14,7 @@ import Driver.OpsMCTS
 import Driver.OpsPTN
 import Driver.OpsSolvers
 import Driver.OpsApi
+import Driver.OpsServe
 namespace Driver
 
 def handlers : List Handler := [
@@ -33,6 +34,7 @@ def handlers : List Handler := [
   handleSearch,
   handleSolvers,
   handleApi,
+  handleServe,
 ]
 
 def step (st : St) (line : String) : St × String :=
